@@ -13,7 +13,8 @@
    (only Requires and learnt clauses may move a watch) and moves this watch to it
    -- leaving this list, entering the other list at its head --; otherwise the
    other watched literal is assigned with the clause as reason, or, if it is
-   false, the clause is the conflict and propagation stops where it is. *)
+   false, the clause is the conflict and propagation stops where it is (the
+   entry being propagated then does not count as propagated). *)
 From Resolvo Require Export Cdcl.Analyze.
 From Coq Require Import Lia.
 
@@ -132,9 +133,10 @@ Fixpoint prop_loop (fuel : nat) (db : list cl) (level : N) (st : pstate) : optio
       match nth_error (ps_trail st) (n - 1 - ps_pidx st) with
       | Some e =>
         let L := (tvar e, negb (snd (t_lit e))) in
-        let st0 := mkPS (ps_trail st) (S (ps_pidx st)) (ps_watch st) (ps_lists st) in
-        match visit_list db L level (lget (ps_lists st0) L) [] st0 with
-        | Some (st1, None) => prop_loop f db level st1
+        (* the entry counts as propagated only once its whole list has been walked (mark_propagated): after a
+           conflict halfway through, an entry that survives the backtracking is walked again *)
+        match visit_list db L level (lget (ps_lists st) L) [] st with
+        | Some (st1, None) => prop_loop f db level (mkPS (ps_trail st1) (S (ps_pidx st1)) (ps_watch st1) (ps_lists st1))
         | r => r
         end
       | None => None
